@@ -37,6 +37,7 @@ func walkCases(tier string, seed int64, div int) []fw.Case {
 		l = mkCases(l, "synthtree", 32, seed, pick(tier, 40, 3000/div))
 		l = mkCases(l, "playout", 32, seed, pick(tier, 25, 2500/div))
 		l = mkCases(l, "tactic", 16, seed, pick(tier, 100, 5000/div))
+		l = mkCases(l, "corner", 8, seed, pick(tier, 6, 200/div))
 		l = mkCases(l, "shared", 8, seed, pick(tier, 12, 1200/div))
 		if div == 1 {
 			l = mkCases(l, "boardplay", 16, seed, pick(tier, 120, 6000))
@@ -60,7 +61,7 @@ func init() {
 		Cases:       casesFn,
 		Floors: func(string) map[string]int64 {
 			return map[string]int64{
-				"positions": 20000, "in_check": 500, "double_check": 5, "pinned_piece_positions": 100,
+				"positions": 20000, "corner_rook_roots": 10, "in_check": 500, "double_check": 5, "pinned_piece_positions": 100,
 				"ep_legal": 20, "ep_illegal_by_check": 1, "castle_legal": 50, "castle_blocked_by_attack": 10,
 				"promotions": 100, "capture_promotions": 20, "stalemate": 1, "checkmate": 1, "perft_checks": 18, "shared_walks": 100, "shared_roots_with_ep": 3, "shared_roots_with_promotion": 3, "board_plies": 20000, "board_plies_after_ep": 100, "board_plies_in_check_after_ep": 20,
 			}
@@ -78,7 +79,7 @@ func init() {
 		Cases:       casesC02,
 		Floors: func(string) map[string]int64 {
 			return map[string]int64{
-				"edges": 20000, "edge_castle": 50, "edge_ep": 20, "edge_promotion": 100, "edge_rook_captured_on_home_with_right": 5,
+				"edges": 20000, "corner_rook_roots": 10, "edge_castle": 50, "edge_ep": 20, "edge_promotion": 100, "edge_rook_captured_on_home_with_right": 5,
 				"edge_jump": 500, "rights_lost_transitions": 100, "illegal_attempts": 500, "shared_walks": 100, "shared_roots_with_ep": 3, "shared_roots_with_promotion": 3,
 			}
 		},
@@ -242,6 +243,26 @@ func runWalk(c *fw.Ctx, cs fw.Case, succ bool) {
 				walkTree(c, p, pos, 1, succ)
 				c.Count("shared_walks", 1)
 			}
+		}
+	case "corner":
+		// a home rook with its right is captured and replaced by the side's other rook: walked three plies deep on the
+		// engine's own successors, so that the node after "capture, recapture, anything" is compared with the rules
+		for i := 0; i < cs.N; i++ {
+			p, ok := gen.CornerRook(r)
+			if !ok {
+				continue
+			}
+			pos, err := adapt.Position(p)
+			if err != nil {
+				c.Violate("newposition", "NewPosition failed for %s: %v", p.FEN(), err)
+				continue
+			}
+			c.Count("corner_rook_roots", 1)
+			d := 3
+			if succ {
+				d = 2 // the successor comparison sees the lost right on the capture edge itself
+			}
+			walkTree(c, p, pos, d, succ)
 		}
 	case "tactic":
 		for i := 0; i < cs.N; i++ {
